@@ -111,13 +111,18 @@ def strict_eq(a, b):
     return a == b
 
 
+LAZY_SEEN = [0]
+
+
 def force(v, depth=0):
     """Materialise generators (Iter / Map return lazy iterables) so results can be compared;
-    exceptions raised while forcing propagate to the caller (they are the evaluation's)."""
+    exceptions raised while forcing propagate to the caller (they are the evaluation's).
+    LAZY_SEEN counts the one-shot iterators that were consumed."""
     import types
 
     if isinstance(v, (types.GeneratorType, map, filter, zip)) or (
             hasattr(v, "__next__") and hasattr(v, "__iter__")):
+        LAZY_SEEN[0] += 1
         return [force(x, depth + 1) for x in v]
     if isinstance(v, list):
         return [force(x, depth + 1) for x in v]
